@@ -34,6 +34,13 @@ SRC_REGS = [("RsV", (True, 32)), ("RtV", (True, 32)), ("RuV", (True, 32)), ("RvV
 NEW_REGS = [("NsN", (True, 32)), ("NtN", (True, 32)), ("PtN", (True, 8)), ("PuN", (True, 8)), ("PvN", (True, 8))]
 DEST_REGS = [("RdV", (True, 32)), ("RddV", (True, 64)), ("PdV", (True, 8)), ("ReV", (True, 32)), ("CdV", (True, 32))]
 RW_REGS = [("RxV", (True, 32)), ("RxxV", (True, 64)), ("RyV", (True, 32)), ("PxV", (True, 8))]
+EXPLICIT_REGS = [("P0", (True, 8)), ("P1", (True, 8)), ("P3", (True, 8)), ("R0", (True, 32)), ("R31", (True, 32)), ("R1:0", (True, 64)),
+                 ("R31:30", (True, 64)), ("C1:0", (True, 64)), ("C11:10", (True, 64)), ("P0_NEW", (True, 8)), ("P1_NEW", (True, 8)), ("R2_NEW", (True, 32))]
+ALIAS_REGS = [("HEX_REG_ALIAS_SP", (False, 32)), ("HEX_REG_ALIAS_LR", (False, 32)), ("HEX_REG_ALIAS_FP", (False, 32)), ("HEX_REG_ALIAS_GP", (False, 32)),
+              ("HEX_REG_ALIAS_LC0", (False, 32)), ("HEX_REG_ALIAS_SA0", (False, 32)), ("HEX_REG_ALIAS_PC", (False, 32)), ("HEX_REG_ALIAS_USR", (False, 32)),
+              ("HEX_REG_ALIAS_UPCYCLE", (False, 64)), ("HEX_REG_ALIAS_LR_NEW", (False, 32))]
+EXPLICIT_DESTS = [("P0", (True, 8)), ("P1", (True, 8)), ("P3", (True, 8)), ("R31", (True, 32)), ("HEX_REG_ALIAS_SP", (False, 32)), ("HEX_REG_ALIAS_LR", (False, 32)),
+                  ("HEX_REG_ALIAS_LC0", (False, 32)), ("HEX_REG_ALIAS_SA0", (False, 32))]
 IMMS = [("siV", True), ("uiV", False), ("riV", True), ("RiV", True), ("SiV", True), ("UiV", False), ("miV", False), ("niV", False)]
 BINOPS = ["+", "-", "*", "&", "|", "^"]
 CMPS = ["<", ">", "<=", ">=", "==", "!="]
@@ -83,7 +90,7 @@ def ctype(e):
     if k in ("macro", "call"):
         return e[3]
     if k == "post":
-        return (False, 32)
+        return e[3] if len(e) > 3 else (False, 32)
     if k == "stmtexpr":
         return e[2]
     if k == "load":
@@ -139,7 +146,15 @@ def stmt_src(s) -> str:
             return f"if ({src(s[1])}) {t}"
         return f"if ({src(s[1])}) {t} else {{ " + " ".join(stmt_src(x) for x in s[3]) + " }"
     if k == "for":
-        return f"for ({s[1]} = 0; {s[1]} < {src(s[2])}; {s[1]}++) {{ " + " ".join(stmt_src(x) for x in s[3]) + " }"
+        cond = f"{s[1]} < {src(s[2])}"
+        if len(s) > 4:
+            if s[4][0] == "andcmp":
+                cond = f"({cond}) && {src(s[4][1])}"
+            elif s[4][0] == "intand":
+                cond = f"{src(s[4][1])} && {src(s[4][2])}"
+            elif s[4][0] == "not":
+                cond = f"!({s[1]} >= {src(s[2])})"
+        return f"for ({s[1]} = 0; {cond}; {s[1]}++) {{ " + " ".join(stmt_src(x) for x in s[3]) + " }"
     if k == "jump":
         return f"JUMP({src(s[1])});"
     if k == "raw":
@@ -353,6 +368,13 @@ def stmt_features(s, out: set):
         expr_features(s[2], out)
         if _has_hybrid(s[2]):
             out.add("call_in_loop_cond")
+        if len(s) > 4:
+            if s[4][0] == "andcmp":
+                expr_features(s[4][1], out, "cond")
+            elif s[4][0] == "intand":
+                expr_features(s[4][1], out, "cond")
+                expr_features(s[4][2], out, "cond")
+                out.add("loop_may_not_terminate")
         for x in s[3]:
             stmt_features(x, out)
     elif k == "jump":
@@ -404,6 +426,8 @@ def features(stmts) -> set:
     for r in writes - reads:
         if r[1] in "yz":
             out.add("y_reg_unread")
+    if any(":" in r for r in reads | writes):
+        out.add("explicit_pair")
     return out
 
 
@@ -429,6 +453,7 @@ class Cfg:
         self.casts = 0.25
         self.alt_spelling = 0.15
         self.boolish_values = 0.15   # comparison/logical results in value positions
+        self.explicit_regs = 0.07    # explicit / alias registers among the leaves and destinations
         self.__dict__.update(kw)
 
 
@@ -444,6 +469,7 @@ class Gen:
         self.nvar = 0
         self.loop_vars = []
         self.need = set()
+        self.favs = None
 
     def fresh(self):
         self.nvar += 1
@@ -485,14 +511,32 @@ class Gen:
         return ("lit", str(v), v, (True, 32))
 
     def leaf(self):
+        """heavy operand re-use: half of the leaves come from a small per-program pool"""
+        r = self.r
+        if self.favs is None:
+            self.favs = []
+            self.favs = [self._leaf() for _ in range(r.randint(2, 4))]
+            if r.random() < 0.35:
+                n, t = r.choice(EXPLICIT_REGS + ALIAS_REGS)
+                self.favs.append(("reg", n, t))
+        if self.favs and r.random() < 0.5:
+            self.stats["leaf_reused"] += 1
+            return r.choice(self.favs)
+        return self._leaf()
+
+    def _leaf(self):
         r = self.r
         x = r.random()
-        if self.locals and x < 0.3:
+        if self.locals and x < 0.3 and self.favs != []:
             n = r.choice(sorted(self.locals))
             self.stats["local_read"] += 1
             return ("var", n, self.locals[n])
         if x < 0.3 + self.c.literals:
             return self.literal()
+        if r.random() < self.c.explicit_regs:
+            n, t = r.choice(EXPLICIT_REGS + ALIAS_REGS)
+            self.stats["explicit_or_alias_read"] += 1
+            return ("reg", n, t)
         if x < 0.3 + self.c.literals + self.c.new_regs:
             n, t = r.choice(NEW_REGS)
             self.stats["new_reg"] += 1
@@ -596,9 +640,13 @@ class Gen:
             self.stats["call_" + name] += 1
             return ("call", name, [self.expr(depth - 1) for _ in pts], rt)
         if x < 0.7:
-            v = r.choice(["i", "j", "k"])
             op = r.choice(["++", "--"])
             self.stats["postfix" + op] += 1
+            if self.locals and r.random() < 0.4:
+                v = r.choice(sorted(self.locals))
+                self.stats["postfix_on_local"] += 1
+                return ("post", v, op, self.locals[v])
+            v = r.choice(["i", "j", "k"])
             self.need.add(v)
             return ("post", v, op)
         t = self.pick_type()
@@ -632,6 +680,16 @@ class Gen:
                 bound = ("bin", "&", ("reg", r.choice(["RsV", "RtV"]), (True, 32)), self.small_lit([7]))
             else:
                 bound = self.small_lit([0, 1, 2, 3, 4, 8])
+            y = r.random()
+            if y < 0.15:
+                self.stats["for_cond_and_cmp"] += 1
+                return ("for", v, bound, body, ("andcmp", self.cond_strict(1)))
+            if y < 0.25:
+                self.stats["for_cond_int_and_int"] += 1
+                return ("for", v, bound, body, ("intand", self.leaf(), self.leaf()))
+            if y < 0.33:
+                self.stats["for_cond_not"] += 1
+                return ("for", v, bound, body, ("not",))
             return ("for", v, bound, body)
         x -= self.c.loops
         if x < self.c.mem:
@@ -664,6 +722,9 @@ class Gen:
             return ("block0", [("decl", self.tyname(t), t[1], n, None), ("assign", ("var", n, t[1]), "=", e)])
         if y < 0.70:
             n, t = r.choice(DEST_REGS + RW_REGS)
+            if r.random() < self.c.explicit_regs * 2:
+                n, t = r.choice(EXPLICIT_DESTS)
+                self.stats["explicit_or_alias_write"] += 1
             self.stats["reg_write"] += 1
             op, e = "=", self.expr()
             if n in [x[0] for x in RW_REGS] and r.random() < self.c.compound_assign:
